@@ -48,7 +48,11 @@ OBS_PROTEIN = ["distances", "angles", "dihedrals", "rmsd", "rg", "gyration_momen
 OBS_RANDOM = ["distances", "angles", "dihedrals", "rmsd", "rg", "gyration_moments", "neighbors", "neighborlist", "drid", "sasa"]
 OBS_PERIODIC = ["distances", "displacements_norm", "angles", "dihedrals", "neighbors", "neighborlist"]
 OBS_PERIODIC_PROTEIN = OBS_PERIODIC + ["contacts", "baker_hubbard"]
-DISCRETE = {"baker_hubbard", "dssp"}
+DISCRETE = {"baker_hubbard", "dssp", "wernet_nilsson"}
+# multi-frame trajectories (each frame its own motion / lattice shifts / cell): observables that one call returns per frame
+OBS_MULTI_PROTEIN = ["distances", "angles", "dihedrals", "rmsd", "rg", "gyration_moments", "contacts", "wernet_nilsson",
+                     "kabsch_sander", "dssp", "neighbors", "neighborlist", "drid"]
+OBS_MULTI_RANDOM = ["distances", "angles", "dihedrals", "rmsd", "rg", "gyration_moments", "neighbors", "neighborlist", "drid", "sasa"]
 U = 1024
 
 
@@ -104,6 +108,25 @@ def rigid_jobs(ctx):
             variants.append({"kind": "rigid", "q": rand_quat(rng), "t": [0.0, 0.0, 0.0]})   # pure rotation
             jobs.append({"structure": st, "box": None, "seed": rng.randrange(1 << 30), "cutoff": 0.45,
                          "observables": obs, "variants": variants, "label": label, "T": T, "n_sphere_points": 480})
+    # MULTI-FRAME: one trajectory whose frames are the same structure, each frame under its OWN rigid motion; every
+    # per-frame observable must equal the one of the untransformed multi-frame trajectory, frame by frame
+    multi = [({"pdb": "1vii.pdb", "frame": 0}, OBS_MULTI_PROTEIN, "1vii.pdb#0/multi", 3),
+             ({"xyz": random_system(rng, 24), "grid": 10}, OBS_MULTI_RANDOM, "random24/multi", 4)]
+    if not quick:
+        multi += [({"pdb": "bpti.pdb", "frame": 0}, OBS_MULTI_PROTEIN, "bpti.pdb#0/multi", 5),
+                  ({"pdb": "2EQQ.pdb", "frame": 7}, OBS_MULTI_PROTEIN, "2EQQ.pdb#7/multi", 4),
+                  ({"xyz": random_system(rng, 90), "grid": 10}, OBS_MULTI_RANDOM, "random90/multi", 6)]
+    for st, obs, label, m in multi:
+        for T in ((30.0,) if quick else (1.0, 30.0, 500.0)):
+            E = ulp32(T + 8.0)
+            variants = [{"kind": "ref"}] + [{"kind": "jitter", "eps": E, "seed": rng.randrange(1 << 30)} for _ in range(3)]
+            for k in range(2 if quick else 6):
+                # variant 0 leaves frame 0 in place and moves the later frames; the others move every frame differently
+                pf = [{"q": ([1.0, 0.0, 0.0, 0.0] if (k == 0 and f == 0) else rand_quat(rng)),
+                       "t": ([0.0, 0.0, 0.0] if (k == 0 and f == 0) else rand_dir(rng, T))} for f in range(m)]
+                variants.append({"kind": "rigid", "per_frame": pf})
+            jobs.append({"structure": st, "box": None, "multi": {"n_frames": m, "boxes": None}, "seed": rng.randrange(1 << 30),
+                         "cutoff": 0.45, "observables": obs, "variants": variants, "label": label, "T": T, "n_sphere_points": 240})
     return jobs
 
 
@@ -149,6 +172,31 @@ def lattice_jobs(ctx):
                      "seed": rng.randrange(1 << 30), "cutoff": 0.45, "observables": OBS_PERIODIC_PROTEIN,
                      "variants": variants, "label": "1vii/%s" % ("ortho" if box[1][0] == 0 else "triclinic"), "T": 0.0,
                      "kind": "ortho" if box[1][0] == 0 else "triclinic"})
+    # MULTI-FRAME with a cell whose KIND changes from frame to frame (exactly orthorhombic first and sheared later,
+    # the reverse, a rectangular frame in the middle); each frame gets its own per-atom lattice shifts in ITS cell
+    seqs = [["ortho", "triclinic", "monoclinic"], ["triclinic", "cubic", "hex60"]]
+    if not quick:
+        seqs += [["cubic", "rhombdod_sq"], ["truncoct", "ortho", "triclinic", "ortho"], ["ortho", "ortho", "triclinic"]] * 2
+    for kinds_seq in seqs:
+        cells = [c05.gen_cell(rng, k) for k in kinds_seq]
+        m = len(cells)
+        n = rng.choice([12, 30])
+        small = [min(c[i][i] for c in cells) for i in range(3)]
+        pts = []
+        while len(pts) < n:
+            p = [rng.randrange(0, small[j]) for j in range(3)]
+            if all(sum((p[k] - q[k]) ** 2 for k in range(3)) >= (0.1 * U) ** 2 for q in pts):
+                pts.append(p)
+        E = ulp32(4 * 8.0 * 3)
+        variants = [{"kind": "ref"}] + [{"kind": "jitter", "eps": E, "seed": rng.randrange(1 << 30)} for _ in range(3)]
+        wpf = [[rng.randrange(-30 * U, 30 * U) / U for _ in range(3)] for _ in range(m)]
+        variants += [{"kind": "lattice", "shifts": "random", "range": 3, "seed": rng.randrange(1 << 30)},
+                     {"kind": "lattice", "shifts": "random", "range": 2, "seed": rng.randrange(1 << 30), "whole_per_frame": wpf}]
+        wmin = min(small) / U
+        jobs.append({"structure": {"xyz": pts, "grid": 10}, "box": [[v / U for v in row] for row in cells[0]],
+                     "multi": {"n_frames": m, "boxes": [[[v / U for v in row] for row in c] for c in cells]},
+                     "seed": rng.randrange(1 << 30), "cutoff": round(min(0.45, 0.3 * wmin), 3), "observables": OBS_PERIODIC,
+                     "variants": variants, "label": "random%d/multi:%s" % (n, "+".join(kinds_seq)), "T": 0.0, "kind": "multi"})
     return jobs
 
 
@@ -342,7 +390,7 @@ class Cmp:
                           kind="discrete_changed")
             else:
                 a, b = {tuple(x) for x in ro}, {tuple(x) for x in to}
-                self.fail(name, jv, "baker_hubbard: set of hydrogen bonds changes under the transformation",
+                self.fail(name, jv, "%s: set of hydrogen bonds changes under the transformation" % name,
                           sorted(a ^ b)[:6], "same set", kind="discrete_changed")
             return "fail"
         if name == "neighbors":
@@ -439,6 +487,25 @@ def run_jobs(ctx, jobs):
         chunk = jobs[i:i + B]
         res = ctx.run_impl("invar_impl.py", {"jobs": chunk}, timeout=3000)["jobs"]
         for job, r in zip(chunk, res):
+            if job.get("multi"):
+                # one Cmp per frame: frame f of every variant trajectory against frame f of the untransformed one
+                for f, rf in enumerate(r["frames"]):
+                    cmp_ = Cmp(ctx, job, rf)
+                    for jv, tv in zip(job["variants"], rf["variants"]):
+                        if jv["kind"] in ("ref", "jitter"):
+                            continue
+                        jf = dict(jv, frame=f)
+                        if jv["kind"] == "rigid":
+                            jf.update(q=jv["per_frame"][f]["q"], t=jv["per_frame"][f]["t"])
+                        elif jv.get("whole_per_frame"):
+                            jf["whole"] = jv["whole_per_frame"][f]
+                        for name in job["observables"]:
+                            verdict = cmp_.compare(name, jf, tv)
+                            key = "multi/%s/%s" % (name, jv["kind"] if jv["kind"] != "rigid" else "rigid%g" % job["T"])
+                            ctx.count({"s": job["label"], "seed": job["seed"], "v": jf, "o": name, "f": f}, nontrivial=True, bucket=key)
+                            stats[verdict] = stats.get(verdict, 0) + 1
+                stats["multi_frame_jobs"] = stats.get("multi_frame_jobs", 0) + 1
+                continue
             cmp_ = Cmp(ctx, job, r)
             for jv, tv in zip(job["variants"], r["variants"]):
                 if jv["kind"] in ("ref", "jitter"):
